@@ -72,6 +72,8 @@ def run_case(spec, ctx):
             w = rng.uniform(0.5, 3)
             fun = (lambda t: v0 * np.cos(w * t)) if rng.random() < 0.5 else v0
             B = rng.normal(size=3) * float(rng.random() < 0.7)
+            if rng.random() < 0.3:
+                B = gen.on_axis_or_plane(rng, B)          # point of attack on a body axis / in a coordinate plane
             if law in ("Force", "B_Force"):
                 elem = getattr(F, law)(fun, body, xi=xi, B_r_CP=B)
                 det["B_r_CP"] = B
